@@ -72,7 +72,7 @@ double complex vnacal_get_parameter_value(vnacal_t *vcp, int parameter,
     fmax = vpmrp->vpmr_frequency_vector[vpmrp->vpmr_frequencies - 1];
     lower = (1.0 - VNACAL_F_EXTRAPOLATION) * fmin;
     upper = (1.0 + VNACAL_F_EXTRAPOLATION) * fmax;
-    if (frequency < lower || frequency > upper) {
+    if (!(frequency >= lower && frequency <= upper)) {
 	_vnacal_error(vcp, VNAERR_USAGE, "vnacal_get_parameter_value: "
 		"frequency %e must be between %e and %e",
 		frequency, fmin, fmax);
